@@ -413,7 +413,7 @@ fn run_op(ctx: &Ctx, line: &str) -> String {
             format!("u={};again={};parent_stable={}", hex(su.as_bytes()), hex(su2.as_bytes()), (before == after) as u8)
         })),
         "DOM" => format!("dom={}", crate::props::representable(ctx.mapping) as u8),
-        "Z" => or_panic(guarded(|| run_sink_op(ctx.mapping, &toks[1..]))),
+        "Z" | "ZI" => or_panic(guarded(|| run_sink_op(ctx.mapping, &toks[1..]))),
         "W" => match ctx.cache_bytes {
             None => format!("w={}", ctx.cache_state),
             Some(a) => {
@@ -666,7 +666,7 @@ fn run_sink_op(mapping: &[u8], toks: &[&str]) -> String {
 }
 
 fn is_group_op(l: &str) -> bool {
-    matches!(l.split(' ').next().unwrap_or(""), "I" | "D" | "K" | "T" | "L" | "P" | "S" | "Y" | "G" | "W" | "U" | "Z" | "DOM" | "US")
+    matches!(l.split(' ').next().unwrap_or(""), "I" | "D" | "K" | "T" | "L" | "P" | "S" | "Y" | "G" | "W" | "U" | "Z" | "ZI" | "DOM" | "US")
 }
 fn is_x_op(l: &str) -> bool {
     matches!(l.split(' ').next().unwrap_or(""), "k" | "t" | "l" | "p" | "s" | "g")
